@@ -169,7 +169,7 @@ def case_getitem(ses, case):
         extra["it"] = it
         return res
 
-    ok = explore_checked(ses, f"C02/getitem/{tag}", run, hyps, function=fn, timeout_ms=800)
+    ok = explore_checked(ses, f"C02/getitem/{tag}", run, hyps, function=fn, timeout_ms=800, replay=replay_getitem)
     for pi, r in enumerate(ok):
         it = r.extra["it"]
         res = r.value
@@ -182,13 +182,13 @@ def case_getitem(ses, case):
             continue
         # shape (axis rule, empty rule)
         same_rank = len(res.shape) == len(exp.shape)
-        ses.decided(f"{pid}/rank", same_rank, function=fn,
+        ses.decided(f"{pid}/rank", same_rank, function=fn, replay=replay_getitem,
                     detail={"got": len(res.shape), "expected": len(exp.shape)})
         if not same_rank:
             continue
         lemmas = []
         for ax, (a, b) in enumerate(zip(res.shape, exp.shape)):
-            ob = ses.prove(f"{pid}/shape[{ax}]", base, as_int_term(a) == as_int_term(b), function=fn)
+            ob = ses.prove(f"{pid}/shape[{ax}]", base, as_int_term(a) == as_int_term(b), function=fn, replay=replay_getitem)
             if ob.status == "discharged":
                 lemmas.append(as_int_term(a) == as_int_term(b))  # proved above: usable as a lemma below
         # dtype of the result (up to byte order)
@@ -201,7 +201,7 @@ def case_getitem(ses, case):
         got = res.elem(tuple(idx))
         want = exp.elem(tuple(idx))
         defs = definition_instances(path, idx)
-        ses.prove(f"{pid}/elements", path_hyps(path, defs + lemmas), elems_equal(got, want), function=fn,
+        ses.prove(f"{pid}/elements", path_hyps(path, defs + lemmas), elems_equal(got, want), function=fn, replay=replay_getitem,
                   detail={"got": repr(got)[:300], "want": repr(want)[:300]})
         io_log_obligations(ses, f"C11/getitem/{tag}/path{pi}", w, it, path, fn)
 
@@ -214,7 +214,7 @@ def io_log_obligations(ses, oid, w, it, path, fn):
     ses.decided(f"{oid}/log-shape", ok_shape, function=fn, detail={"log": [repr(e)[:160] for e in log]})
     if not ok_shape:
         return
-    ses.decided(f"{oid}/opens-own-url", log[0][1] == "img" and log[0][2] == "rb", function=fn,
+    ses.decided(f"{oid}/opens-own-url", log[0][1] == "img" and log[0][2] == "rb", function=fn, replay=replay_getitem,
                 detail={"open": repr(log[0])})
     if len(log) == 2:
         return
@@ -232,17 +232,17 @@ def io_log_obligations(ses, oid, w, it, path, fn):
     K, bnd, L = gm[0]["K"], gm[0]["bnd"], gm[0]["L"]
     kappa = K(bnd(g))
     pos, req, got = as_int_term(read[2]), as_int_term(read[3]), as_int_term(read[4])
-    ses.prove(f"{oid}/seek-to-chunk-offset", base, as_int_term(seek[2]) == w.off(kappa), function=fn)
-    ses.prove(f"{oid}/read-at-seek-position", base, pos == as_int_term(seek[2]), function=fn)
-    ses.prove(f"{oid}/read-chunk-size", base, req == w.size(kappa), function=fn)
-    ses.prove(f"{oid}/read-inside-file", base, z3.And(pos >= 0, pos + req <= w.fsize, got == req), function=fn)
+    ses.prove(f"{oid}/seek-to-chunk-offset", base, as_int_term(seek[2]) == w.off(kappa), function=fn, replay=replay_getitem)
+    ses.prove(f"{oid}/read-at-seek-position", base, pos == as_int_term(seek[2]), function=fn, replay=replay_getitem)
+    ses.prove(f"{oid}/read-chunk-size", base, req == w.size(kappa), function=fn, replay=replay_getitem)
+    ses.prove(f"{oid}/read-inside-file", base, z3.And(pos >= 0, pos + req <= w.fsize, got == req), function=fn, replay=replay_getitem)
     # confined to the group's bytes: the span is [start(first row w1) , stop(last row w2)] of chunk kappa
     ses.prove(f"{oid}/read-confined-to-chunk", base + w.chunk_facts(kappa),
               z3.And(pos == w.start(w.w1(kappa)), pos + req == w.stop(w.w2(kappa)),
-                     FDIV(w.w1(kappa), w.c) == kappa, FDIV(w.w2(kappa), w.c) == kappa), function=fn)
+                     FDIV(w.w1(kappa), w.c) == kappa, FDIV(w.w2(kappa), w.c) == kappa), function=fn, replay=replay_getitem)
     # one request per touched chunk: chunk numbers strictly increase with the group index
     h = fresh_int("h")
-    ses.prove(f"{oid}/one-read-per-chunk", base + [h > g, h < G], K(bnd(h)) > kappa, function=fn)
+    ses.prove(f"{oid}/one-read-per-chunk", base + [h > g, h < G], K(bnd(h)) > kappa, function=fn, replay=replay_getitem)
     # no read for groups outside the selection: every group is the chunk of a selected row
     with_ctx = list(base)
     path.index_ctx.append((g, 0, G))
@@ -251,4 +251,80 @@ def io_log_obligations(ses, oid, w, it, path, fn):
     finally:
         path.index_ctx.pop()
     ses.prove(f"{oid}/only-touched-chunks", path_hyps(path) + [g >= 0, g < G],
-              z3.And(bnd(g) >= 0, bnd(g) < L, kappa == key_term), function=fn)
+              z3.And(bnd(g) >= 0, bnd(g) < L, kappa == key_term), function=fn, replay=replay_getitem)
+
+
+# ---------------------------------------------------------------------------------------------------
+# trusted base, replay search and bounded stand-ins (real code, small scope)
+# ---------------------------------------------------------------------------------------------------
+def trusted(ses):
+    ses.trust(
+        "pyvc engine (AST interpreter, VC generation) and z3 / cvc5",
+        "CPython semantics of native operations; slice.indices; floor-division lemmas (pyvc.ops.floordiv_axioms)",
+        "toolz get/groupby/partition_all/cons and builtins enumerate/zip/min/max/range as modelled in pyvc.models "
+        "(groupby on a key-monotone sequence = contiguous runs); validated differentially (bounded)",
+        "numpy: frombuffer with explicit big-endian dtype, np.stack, basic indexing shape rules (pyvc.absobj)",
+        "fsspec: open().seek/read return the file's bytes (pyvc.absobj.SymFile)",
+        "xarray explicit_indexing_adapter with IndexingSupport.BASIC passes ints in range and positive-step slices "
+        "(validated bounded against a reference NumPy backend)",
+        "induction schema for prefix sums of run lengths (FlatSeq/B = bnd)",
+    )
+    ses.assume(
+        "machine arithmetic: Python ints are mathematical integers (exact)",
+        "byte_ranges of a well-formed image: 0 <= start <= stop <= |file| and equal row widths W*S",
+        "generators are evaluated eagerly (A-eager)",
+    )
+
+
+_NATIVE_CACHE = {}
+
+
+def _native_getitem(budget):
+    from native import arraycheck as ac
+
+    key = ("getitem", budget)
+    if key not in _NATIVE_CACHE:
+        _NATIVE_CACHE[key] = ac.check_getitem(budget=budget)
+    return _NATIVE_CACHE[key]
+
+
+def replay_getitem(model):
+    """replay search on the real code for a failed getitem obligation: small-scope differential run"""
+    ok, n, info = _native_getitem(12000)
+    if ok:
+        return {"confirmed": False, "input": f"{n} small cases tried, none fails"}
+    return {"confirmed": True, "input": {k: v for k, v in info.items() if k not in ("observed", "expected")},
+            "observed": info["observed"], "expected": info["expected"]}
+
+
+def bounded_getitem(ses, prop, budget=None):
+    budget = budget or (6000 if ses.tier == "quick" else 60000)
+    ok, n, info = _native_getitem(budget)
+    ses.bounded_check(
+        f"{prop}/bounded/getitem-vs-numpy", ok, bound=f"images up to 5x3, rpc 1..n+1, every int/slice key with |bounds| <= n+1, steps 1..3; {n} cases",
+        function="ceos_alos2.array.Array.__getitem__", evaluations=n,
+        replay=(lambda m: {"confirmed": True, "input": {k: v for k, v in info.items() if k not in ("observed", "expected")},
+                           "observed": info["observed"], "expected": info["expected"]}) if info else None)
+
+
+def bounded_xarray_indexing(ses, prop):
+    from native import arraycheck as ac
+
+    budget = 1500 if ses.tier == "quick" else 20000
+    ok, n, info, known = ac.check_xarray_indexing(budget=budget)
+    ses.bounded_check(
+        f"{prop}/bounded/xarray-indexing-vs-reference-backend", ok,
+        bound=f"isel with ints, slices (all steps), int/bool arrays, vectorised keys on images up to 5x3; {n} selections",
+        function="ceos_alos2.xarray.LazilyIndexedWrapper.__getitem__", evaluations=n,
+        replay=(lambda m: {"confirmed": True, "input": {k: v for k, v in info.items() if k not in ("observed", "expected")},
+                           "observed": info["observed"], "expected": info["expected"]}) if info else None)
+    kinds = {}
+    for k in known:
+        kinds.setdefault(k[0], []).append(k)
+    for kind, items in sorted(kinds.items()):
+        first = items[0]
+        ses.bounded_check(
+            f"{prop}/dependency/{kind}", False, bound=f"{len(items)} selections of this class", evaluations=len(items),
+            function="xarray.core.indexing (dependency)",
+            replay=lambda m, kind=kind, first=first: {"confirmed": True, "witness_class": kind, "input": first[1],
+                                                      "observed": first[2], "expected": first[3]})
